@@ -605,6 +605,7 @@ func (f *frame) instr(ins ssa.Instruction, pc string, st *State) string {
 		m := f.val(i.Map)
 		f.panicOb("nilmap", pc, not(eq(m.S, "0")), i.Pos(), "assignment to entry in nil map")
 		k := f.mapKey(f.val(i.Key))
+		g.addInstTerm(g.mapKeySort(mt), k) // a key the code writes is a key the universal facts about the map are used at
 		hh, hvn := g.mapHasHeap(mt), g.mapValHeap(mt)
 		g.writeHeap(st, hh, m.S, "(store "+g.readHeap(st, hh, m.S)+" "+k+" true)")
 		g.writeHeap(st, hvn, m.S, "(store "+g.readHeap(st, hvn, m.S)+" "+k+" "+f.val(i.Value).S+")")
@@ -1004,6 +1005,7 @@ func (f *frame) doLookup(i *ssa.Lookup, st *State, pc string) {
 	}
 	m := f.val(i.X)
 	k := f.mapKey(f.val(i.Index))
+	g.addInstTerm(g.mapKeySort(mt), k)
 	has := "(select " + g.readHeap(st, g.mapHasHeap(mt), m.S) + " " + k + ")"
 	if m.S == "0" {
 		has = "false"
